@@ -76,6 +76,10 @@ def noiseless_part(rep, rng, drv, QD, n_cases, replay):
             try:
                 d = QD(a, b, c, convex)
                 nsa = np.array(ns)
+                if replay is None and rng.random() < 0.3:
+                    lab = rng.choice(PRIMES)
+                    rep.count("noiseless:history=" + lab)
+                    run_primes(prime_calls(QD, k, lab, noisy=False))
                 qt = d.quantile_tuning_curve(nsa, q=q, minimize=mn)
                 av = d.average_tuning_curve(nsa, minimize=mn)
                 qt_s, av_s = d.quantile_tuning_curve(ns[1], q=q, minimize=mn), d.average_tuning_curve(ns[1], minimize=mn)
@@ -116,6 +120,8 @@ def noiseless_part(rep, rng, drv, QD, n_cases, replay):
                     else:
                         rep.disagree(op="quad." + kind, input=dict(inp, n=C.fhex(n)), model=m, impl=float(iv), allowance=al,
                                      note="model and implementation differ by more than the jitter allowance although the property holds at this input")
+        container_part(rep, rng, d, k, inp, eff, "QuadraticDistribution",
+                       lambda kind, n, iv: spec_noiseless(kind, d, a, b, c, convex, n, q, eff, iv))
         if a == b:
             if not (np.all(qt == a) and np.all(av == a)):
                 rep.violate(what="point mass: tuning curves are not constantly a", input=inp, call="QuadraticDistribution.average_tuning_curve")
@@ -141,6 +147,56 @@ def noiseless_part(rep, rng, drv, QD, n_cases, replay):
                 rep.violate(what=f"{name}_tuning_curve is not monotone in n in the direction of optimisation", input=dict(inp, n=hexl(ns[i:i + 2])),
                             observed=[float(arr[i]), float(arr[i + 1])], call=f"QuadraticDistribution.{name}_tuning_curve")
     return calib
+
+
+def container_part(rep, rng, d, k, inp, eff, cls, spec, kinds=("qtc", "avg")):
+    """the same n presented as Python ints, integer ndarrays of every width that holds them, float32: the property quantifies
+    over the number n, and the precision numpy/scipy compute in must not depend on the container it arrives in"""
+    mn, q, ns = k["mn"], k["q"], k["ns"]
+    ni = [n for n in ns if float(n).is_integer()]
+    small = sorted({1.0, float(rng.randint(2, 120)), float(rng.randint(2, 120))})
+    vals = small if (rng.random() < 0.5 or len(ni) < 2) else ni
+    conts = C.number_containers(vals, rng, k=2)
+    forced = k.get("ns_container")
+    if forced:
+        vals = [n for n in ns if float(n).is_integer()] or vals
+        allc = C.number_containers(vals, rng, k=99) + [("pyint_scalar", None), ("int16_scalar", None)]
+        conts = [lc for lc in allc if lc[0] == forced]
+    elif rng.random() < 0.3:
+        conts.append(rng.choice([("pyint_scalar", None), ("int16_scalar", None)]))
+    for label, obj in conts:
+        rep.count(f"{cls}:ns_container={label}")
+        scalar = label.endswith("_scalar")
+        if scalar:
+            use = [vals[-1]]
+            obj = int(vals[-1]) if label == "pyint_scalar" else np.int16(vals[-1])
+        else:
+            use = vals
+        with warnings.catch_warnings():
+            warnings.simplefilter("ignore")
+            try:
+                res = {}
+                if "qtc" in kinds:
+                    res["qtc"] = d.quantile_tuning_curve(obj, q=q, minimize=mn)
+                if "avg" in kinds:
+                    res["avg"] = d.average_tuning_curve(obj, minimize=mn)
+            except Exception as e:
+                rep.violate(what=f"a tuning curve raised for n given as {label} (the same numbers as a float64 array are accepted)",
+                            error=repr(e), input=dict(inp, ns=hexl(use), ns_container=label), call=cls)
+                continue
+        for kind, r in res.items():
+            name = "quantile" if kind == "qtc" else "average"
+            if (np.shape(r) != ()) if scalar else (np.shape(r) != (len(use),)):
+                rep.violate(what=f"{name}_tuning_curve: n given as {label} of shape {'()' if scalar else (len(use),)} gave shape {np.shape(r)}",
+                            input=dict(inp, ns=hexl(use), ns_container=label), call=f"{cls}.{name}_tuning_curve")
+                continue
+            for n, iv in zip(use, np.atleast_1d(r)):
+                rep.case(("container", label, kind, inp["a"], inp["b"], inp["c"], inp["convex"], mn, C.fhex(n)), nontrivial=inp["a"] != inp["b"],
+                         sample=dict(cls=cls, op=kind, n=n, ns_container=label, impl=float(iv)))
+                msg = spec(kind, n, float(iv))
+                if msg is not None:
+                    rep.violate(what=f"{msg} [n given as {label}]", input=dict(inp, n=C.fhex(n), ns=hexl(use), ns_container=label),
+                                observed=float(iv), call=f"{cls}.{name}_tuning_curve")
 
 
 def spec_noiseless(kind, d, a, b, c, convex, n, q, eff, iv):
@@ -249,6 +305,10 @@ def noisy_quantile_part(rep, rng, drv, NQ, switches, n_cases):
             try:
                 d = NQ(a, b, c, o, convex)
                 nsa = np.array(ns)
+                if rng.random() < 0.4:
+                    lab = rng.choice(PRIMES)
+                    rep.count("noisy_qtc:history=" + lab)
+                    run_primes(prime_calls(NQ, k, lab, with_avg=False))
                 qt = d.quantile_tuning_curve(nsa, q=q, minimize=mn)
                 qt_s = d.quantile_tuning_curve(ns[1], q=q, minimize=mn)
                 qt_d, qt_n = d.quantile_tuning_curve(nsa, q=q, minimize=convex), d.quantile_tuning_curve(nsa, q=q)
@@ -263,6 +323,15 @@ def noisy_quantile_part(rep, rng, drv, NQ, switches, n_cases):
                         call="NoisyQuadraticDistribution.quantile_tuning_curve")
         if not np.array_equal(qt_n, qt_d, equal_nan=True):
             rep.violate(what="minimize=None is not minimize=self.convex", input=inp, call="NoisyQuadraticDistribution.quantile_tuning_curve")
+        def spec_nq(kind, n, iv):
+            lv = mp_level(q, n, eff)
+            if not np.isfinite(iv):
+                return None if ((iv == -INF and lv == 0.0) or (iv == INF and lv == 1.0)) else "quantile_tuning_curve is infinite at a level strictly inside (0,1)"
+            with warnings.catch_warnings():
+                warnings.simplefilter("ignore")
+                f = float(d.cdf(iv))
+            return None if abs(f - lv) <= 2e-5 else f"F(quantile_tuning_curve(n,q)) differs from the level of the best of n draws by {abs(f - lv):.3g} > 2e-5"
+        container_part(rep, rng, d, k, inp, eff, "NoisyQuadraticDistribution", spec_nq, kinds=("qtc",))
         # model: ppf of the level (level computed as the code computes it; the level formula itself is tied by the noiseless class)
         r = drv.run([("noisy.ppf", f"{Q.nparams_line(a, b, c, o, convex)} {C.flist(lv_np)}")])[0]
         if r is None:
@@ -292,13 +361,64 @@ def noisy_quantile_part(rep, rng, drv, NQ, switches, n_cases):
                              note="quantile curve differs from the model's 30-step bisection although F(t) is within 2e-5 of the level")
 
 
-def guarded_avg(d, ns, mn, atol, timeout=60.0, mem=1 << 30):
+PRIMES = ("sibling_convex", "sibling_c", "sibling_o", "same_other_n", "same_looser_atol", "same_minimize_flip", "same_quantile_first")
+
+
+def prime_calls(cls, k, label, noisy=True, with_avg=True):
+    """history stratum: calls made in the same process *before* the judged call, on the same instance or on a sibling that
+    differs in exactly one parameter.  The property is about the distribution and n, not about what was evaluated before, so
+    the judged value must still meet the same oracle (a memo keyed on too few parameters is the typical way to break this)."""
+    a, b, c, convex, mn, ns = k["a"], k["b"], k["c"], k["convex"], k["mn"], k["ns"]
+    o = k.get("o")
+    eff = convex if mn is None else mn
+
+    def mk(c_=c, o_=o, convex_=convex):
+        return cls(a, b, c_, o_, convex_) if noisy else cls(a, b, c_, convex_)
+
+    def avg(dd, ns_=ns, mn_=mn, **kw):
+        if not with_avg:
+            return lambda: None
+        return lambda: dd().average_tuning_curve(np.array(ns_), minimize=mn_, **kw)
+
+    if label == "sibling_convex":
+        return [avg(lambda: mk(convex_=not convex), mn_=eff), avg(lambda: mk(convex_=not convex), mn_=not eff),
+                lambda: mk(convex_=not convex).quantile_tuning_curve(np.array(ns), q=k.get("q", 0.5), minimize=eff)]
+    if label == "sibling_c":
+        return [avg(lambda: mk(c_=c % 10 + 1), mn_=eff), lambda: mk(c_=c % 10 + 1).quantile_tuning_curve(np.array(ns), q=k.get("q", 0.5), minimize=eff)]
+    if label == "sibling_o" and noisy:
+        o2 = 2 * o if o > 0 else 0.25 * (b - a if b > a else 1.0)
+        return [avg(lambda: mk(o_=o2), mn_=eff), lambda: mk(o_=o2).quantile_tuning_curve(np.array(ns), q=k.get("q", 0.5), minimize=eff)]
+    if label == "same_other_n":
+        return [avg(mk, ns_=[1.0, 3.0, 57.0], mn_=eff)]
+    if label == "same_looser_atol" and noisy:
+        S = b - a + 12 * o
+        return [avg(mk, mn_=eff, atol=max(1e-3 * S, 1e-300)), avg(mk, mn_=eff, atol=max(1e-4 * S, 1e-300))]
+    if label == "same_minimize_flip":
+        return [avg(mk, mn_=not eff), lambda: mk().quantile_tuning_curve(np.array(ns), q=k.get("q", 0.5), minimize=not eff)]
+    if label == "same_quantile_first":
+        return [lambda: mk().quantile_tuning_curve(np.array(ns), q=0.5, minimize=eff), lambda: mk().cdf(np.linspace(a - 1.0, b + 1.0, 33)),
+                lambda: mk().ppf(np.array([0.25, 0.75]))]
+    return []
+
+
+def run_primes(thunks):
+    with warnings.catch_warnings():
+        warnings.simplefilter("ignore")
+        for t in thunks:
+            try:
+                t()
+            except Exception:
+                pass
+
+
+def guarded_avg(d, ns, mn, atol, timeout=60.0, mem=1 << 30, primes=()):
     def call():
+        run_primes(primes)
         with warnings.catch_warnings():
             warnings.simplefilter("ignore")
             kw = {} if atol is None else dict(atol=atol)
             return [float(v) for v in np.atleast_1d(d.average_tuning_curve(np.array(ns), minimize=mn, **kw))]
-    return Q.guarded_call(call, timeout=timeout, extra_mem=mem)
+    return Q.guarded_call(call, timeout=timeout * (1 + len(primes)), extra_mem=mem)
 
 
 def model_navg(drv, a, b, c, o, convex, mn, atol, ns, cap=MODEL_CAP):
@@ -330,27 +450,30 @@ def noisy_average_part(rep, rng, drv, NQ, switches, n_cases, replay):
         atol = None if rng.random() < p_none else min(1e-3, S * 10.0 ** rng.uniform(-5, -3))
         if atol is not None and not (1e-6 * S <= atol <= 1e-3):
             atol = None
-        k.update(mn=rng.choice([None, False, True]), ns=ns, atol=atol)
+        k.update(mn=rng.choice([None, False, True]), ns=ns, atol=atol, prime=(rng.choice(PRIMES) if rng.random() < 0.6 else None))
         cases.append(k)
     if replay is not None:
         cases = [replay]
     for k in cases:
         a, b, c, convex, o, mn, ns, atol = k["a"], k["b"], k["c"], k["convex"], k["o"], k["mn"], k["ns"], k["atol"]
+        prime = k.get("prime")
         S = b - a + 12 * o
         lo, hi = a - 6 * o, b + 6 * o
         eff = convex if mn is None else mn
         at = atol if atol is not None else 1e-6 * (hi - lo)
         tol = 100 * max(at, 1e-6 * S)
         inp = dict(cls="NoisyQuadraticDistribution", a=C.fhex(a), b=C.fhex(b), c=c, o=C.fhex(o), convex=convex, minimize=mn, ns=hexl(ns),
-                   atol=None if atol is None else C.fhex(atol))
-        shown = dict(a=a, b=b, c=c, o=o, convex=convex, minimize=mn, ns=ns, atol=atol)
+                   atol=None if atol is None else C.fhex(atol), history=prime)
+        shown = dict(a=a, b=b, c=c, o=o, convex=convex, minimize=mn, ns=ns, atol=atol,
+                     history=(None if prime is None else f"in the same process, first: {prime} (see prime_calls in harness/corr_C08.py)"))
+        rep.count("noisy_avg:history=%s" % prime)
         rep.count("noisy_avg:regime=" + ("noiseless" if o < 1e-6 * (b - a) else "series" if o < 10 * (b - a) else "normal"))
         rep.count("noisy_avg:zero_%s_range" % ("inside" if lo <= 0 < hi else "outside"))
         rep.count("noisy_avg:ns=" + ("array" if len(ns) > 1 else "scalar"))
         with warnings.catch_warnings():
             warnings.simplefilter("ignore")
             d = NQ(a, b, c, o, convex)
-        status, vals = guarded_avg(d, ns, mn, atol)
+        status, vals = guarded_avg(d, ns, mn, atol, primes=prime_calls(NQ, k, prime) if prime else ())
         for n in ns:
             rep.case(("navg", inp["a"], inp["b"], c, inp["o"], convex, mn, inp["atol"], C.fhex(n)),
                      sample=dict(shown, n=n, impl=(vals[ns.index(n)] if status == "ok" else status)))
@@ -449,9 +572,9 @@ def run(seed, tier, replay=None):
         ns = [C.unhex(t) for t in inp["ns"]] if isinstance(inp.get("ns"), list) else [C.unhex(inp["n"])]
         base = dict(a=C.unhex(inp["a"]), b=C.unhex(inp["b"]), c=int(inp["c"]), convex=bool(inp["convex"]), mn=inp.get("minimize"), ns=ns)
         if inp.get("cls") == "QuadraticDistribution":
-            rp_q = dict(base, q=C.unhex(inp.get("q", C.fhex(0.5))), ns=sorted(set(ns + [1.0, 2.0]))[:7])
+            rp_q = dict(base, q=C.unhex(inp.get("q", C.fhex(0.5))), ns=sorted(set(ns + [1.0, 2.0]))[:7], ns_container=inp.get("ns_container"))
         else:
-            rp_n = dict(base, o=C.unhex(inp["o"]), atol=None if inp.get("atol") is None else C.unhex(inp["atol"]))
+            rp_n = dict(base, o=C.unhex(inp["o"]), atol=None if inp.get("atol") is None else C.unhex(inp["atol"]), prime=inp.get("history"))
     calib = {}
     if replay is None or rp_q is not None:
         calib = noiseless_part(rep, rng, drv, QD, 400 if quick else 6000, rp_q)
